@@ -170,3 +170,50 @@ def run(ctx):
     dei(ctx, fb, 'C07.DEI')
     exact(ctx, fb)
     split(ctx, fb)
+    carry_order(ctx, fb)
+
+
+
+def _all_leaves_reversed(ty):
+    """every positional source (slice Iter/IterMut, Range) in an iterator type is nested inside a Rev<..>"""
+    leaves = [m.start() for m in re.finditer(r'core::slice::iter::(IterMut|Iter)<|core::ops::range::Range<|core::ops::range::RangeInclusive<|alloc::vec::into_iter::IntoIter<', ty)]
+    if not leaves:
+        return None
+    for pos in leaves:
+        # bracket-nesting prefixes that are still open at pos
+        depth_stack = []
+        i = 0
+        while i < pos:
+            ch = ty[i]
+            if ch == '<':
+                # name preceding this bracket
+                j = i - 1
+                while j >= 0 and (ty[j].isalnum() or ty[j] in '_:'):
+                    j -= 1
+                depth_stack.append(ty[j + 1:i])
+            elif ch == '>' and depth_stack:
+                depth_stack.pop()
+            i += 1
+        if not any(n.endswith('rev::Rev') for n in depth_stack):
+            return False
+    return True
+
+
+def carry_order(ctx, fb):
+    """OffsetsBase treats its positions as a mixed-radix counter: every loop that walks the dimensions to carry or to
+    accumulate place values goes from the innermost (last) dimension outwards, i.e. iterates a reversed iterator"""
+    R = 'C07.carry-order'
+    n = 0
+    for f in fb.fns(crate='rten_tensor'):
+        if not f.has_mir() or not re.search(r'iterators::OffsetsBase::(step_outer_pos|step_by|offset_from_linear_index|linear_index)$', f.path):
+            continue
+        for c in f.calls():
+            if re.search(r'Iterator>?::next$', c.callee or '') and f.in_loop(c.bb):
+                ty = str(c.info.get('ga') or '')
+                if not re.search(r'IterPos|Range<usize>', ty):
+                    continue
+                n += 1
+                rev = _all_leaves_reversed(ty)
+                ctx.inst(R, 'loop:' + f.path.split('::')[-1], rev is True, 'dimensions are walked innermost-first (reversed iterator)' if rev else
+                         'a loop over the dimension positions is not (entirely) reversed: carries / place values would propagate towards the wrong dimension', c.loc())
+    ctx.floor(R, 'dimension loops in OffsetsBase', n, 4)
